@@ -324,6 +324,56 @@ pub fn generate(seed: u64, tier: &str, sink: &mut Sink) {
         };
         sink.push(Case { tags: vec!["kind=stall".into(), format!("phase={}", st.name)], op: format!("nop {}", st.name), impl_line: "nop".into(), oracle: o });
     }
+    // ---------------------------------------------------------------- (1b) the peer stalls while the connection is made
+    // black-hole addresses (SYNs are dropped): a host name with one address (fast path of the connection race),
+    // a name with four (the race: attempts start 200 ms apart, each may use only what is left of T; seed
+    // C13-seed8), an IP literal. The connect timeout (1000 ms) is longer than T (300 ms): T bounds the call.
+    {
+        let cfgs: [(&str, usize, bool); 4] = [("connect-stall-one-address", 1, false), ("connect-stall-race-of-four", 4, false), ("connect-stall-race-of-two", 2, false), ("connect-stall-ip-literal", 1, true)];
+        let mut hs = vec![];
+        for (ci, (name, naddr, literal)) in cfgs.iter().enumerate() {
+            let (name, naddr, literal) = (*name, *naddr, *literal);
+            hs.push(std::thread::spawn(move || {
+                for _attempt in 0..3 {
+                    let holes: Vec<_> = (0..naddr).filter_map(|k| crate::p_c17::blackhole(k % 2 == 1)).collect();
+                    if holes.len() != naddr {
+                        continue;
+                    }
+                    let host = format!("stall-{}.test", ci);
+                    let url = if literal {
+                        format!("http://{}/", holes[0].addr)
+                    } else {
+                        attohttpc::verif_hooks::set_resolver_override(&host, holes.iter().map(|h| h.addr).collect());
+                        format!("http://{}:1/", host)
+                    };
+                    let t0 = Instant::now();
+                    let res = attohttpc::get(&url).timeout(Duration::from_millis(300)).connect_timeout(Duration::from_millis(1000)).read_timeout(Duration::from_millis(5000)).send();
+                    let el = t0.elapsed().as_millis() as u64;
+                    attohttpc::verif_hooks::clear_resolver_overrides();
+                    if !holes.iter().all(|h| h.still_black()) {
+                        continue; // the scripted peers did not behave as scripted: set the scenario up again
+                    }
+                    return Some((name, el, match &res { Ok(_) => "ok".to_string(), Err(e) => format!("err:{}", io_kind(e)) }, res.is_err()));
+                }
+                None
+            }));
+        }
+        for h in hs {
+            if let Some((name, el, desc, failed)) = h.join().unwrap() {
+                let bound = 300 + margin;
+                let o = if el > bound {
+                    Err((format!("late-{}", name), format!("took {} ms, bound {} ms ({})", el, bound, desc)))
+                } else if !failed {
+                    Err((format!("stall-unreported-{}", name), desc.clone()))
+                } else {
+                    Ok(())
+                };
+                sink.push(Case { tags: vec!["kind=stall".into(), format!("phase={}", name)], op: format!("nop {}", name), impl_line: "nop".into(), oracle: o });
+            } else {
+                sink.push(Case { tags: vec!["kind=stall".into(), "trivial".into(), "env-invalid".into()], op: "nop".into(), impl_line: "nop".into(), oracle: Ok(()) });
+            }
+        }
+    }
     // ---------------------------------------------------------------- (2) thread / socket release
     {
         let before = thread_count();
